@@ -144,6 +144,17 @@ func (a AlterTableOperation) Children() []Node {
 	if a.AlterColumnOp != nil {
 		children = append(children, a.AlterColumnOp)
 	}
+	for _, id := range []*Ident{a.ProjectionName, a.PartitionName, a.OldColumnName, a.NewColumnName,
+		a.ConstraintName, a.OldName, a.NewName, a.ColumnName} {
+		if id != nil {
+			children = append(children, id)
+		}
+	}
+	for _, name := range []ObjectName{a.TableName, a.NewTableName} {
+		if name.Name != "" {
+			children = append(children, name)
+		}
+	}
 	return children
 }
 
